@@ -20,7 +20,7 @@ Theorem calls_bounded : forall pr o eps tstart, 0 <= eps -> 0 <= tstart ->
 Proof.
   intros pr o eps tstart He Ht.
   destruct Hma as (ta & Ea & Ha), Hgd as (td & Ed & Hd), Hgk as (tk & Ek & Hk).
-  unfold op_bound, waits. rewrite Hdone, Ea, Ed, Ek.
+  unfold op_bound, waits. rewrite Ea, Ed, Ek.
   destruct pr, o; cbn [fold_right wait_bound fires omin oplus timer_src app]; rewrite ?Heof, ?Hcancel;
     destruct (cp_start_timeout P); cbn [fold_right wait_bound fires omin oplus timer_src app]; rewrite ?Heof, ?Hcancel;
     cbn [omin]; eexists; (split; [reflexivity|]); lia.
@@ -29,7 +29,7 @@ Qed.
 Theorem start_returns_at_once : forall pr eps tstart, 0 <= eps -> 0 <= tstart ->
   exists b, op_bound P eps tstart pr OStart = Some b /\ b <= eps.
 Proof.
-  intros pr eps tstart He Ht. unfold op_bound, waits. rewrite Hdone.
+  intros pr eps tstart He Ht. unfold op_bound, waits.
   destruct (cp_start_timeout P); cbn [fold_right wait_bound fires omin oplus timer_src app]; rewrite ?Heof, ?Hcancel; cbn [omin];
     eexists; (split; [reflexivity|]); lia.
 Qed.
@@ -42,7 +42,8 @@ Proof.
   - destruct (h_client st); discriminate.
 Qed.
 
-(* without the doneCtx case and without the EOF close, Start would sit out its whole timeout; without the timeout as well, forever *)
+(* without the EOF close Start would sit out its whole timeout (the doneCtx arm cannot help: see Model/Crash.v); without the
+   timeout as well, forever *)
 Example start_unbounded_without_sources :
   op_bound {| cp_start_done := false; cp_start_timeout := false; cp_lines_eof := false; cp_wait_cancels := true; cp_wait_sets_exited := true;
               cp_grpc_ctx := true; cp_mux_accept_timer := Some 5; cp_grpc_dial_timer := Some 5; cp_grpc_knock_timer := Some 5 |} 100 60 PNet OStart = None.
